@@ -122,24 +122,32 @@ template<class V> static void run(const VpCase* c, VpOutcome* o) {
     const bool scalar = op >= OP_SC0;
     const unsigned f = scalar ? op - OP_SC0 : op;
     if (scalar && W != 1) { o->status = 2; return; }
+    // the rounding functions are also run with FTZ and/or DAZ enabled (s0 / 4): the environment must come back unchanged, and every lane
+    // whose input is not subnormal must still give the <cmath> value (no subnormal is involved, so FTZ/DAZ cannot legitimately matter)
+    const unsigned ftzdaz = (unsigned)(((c->s[0] < 0 ? -c->s[0] : c->s[0]) / 4) % 4);
     FpEnv before, after;
     {
         RoundGuard g(mode);
+        for (unsigned i = 0; i < W; ++i) exp[i] = Ref<T>::un(RF[f], al[i]);
+        const uint32_t saved = ref_get_mxcsr();
+        if (ftzdaz) ref_set_mxcsr((saved & ~0x8040u) | ((ftzdaz & 1) ? 0x8000u : 0) | ((ftzdaz & 2) ? 0x0040u : 0));
+        struct Restore { uint32_t v; bool on; ~Restore() { if (on) ref_set_mxcsr(v); } } restore = {saved, ftzdaz != 0};
         before = FpEnv::take();
         poison_below(al[0] ^ f);
         if (scalar) { T x = elem<T>::from_bits(al[0]), y; do_sc<T>(f, &x, &y); got[0] = elem<T>::to_bits(y); }
         else { V a = mk<V>(al), r = a; do_vec<V>(f, &a, &r); rd<V>(r, got); }
         after = FpEnv::take();
-        for (unsigned i = 0; i < W; ++i) exp[i] = Ref<T>::un(RF[f], al[i]);
     }
     if (mode) { o->classes |= 1u << CL_DIRECTED_MODE; nt = true; }
+    if (ftzdaz) { o->classes |= 1u << CL_FTZ_DAZ; nt = true; }
     for (unsigned i = 0; i < W; ++i) classify<T>(al[i], exp[i], o, &nt);
     if (!before.same(after)) { fail(o, -1, "fp_environment_changed", "%s changed the FP environment: MXCSR control %04x -> %04x, x87 cw %04x -> %04x", OPS[op].name, before.mxcsr_ctl, after.mxcsr_ctl, before.x87, after.x87); return; }
     // comparison per the statement: NaN -> NaN; integral or infinite input -> output bit-identical to the input; otherwise numerically equal to libm
     const char* failtag = nullptr; int bad = -1;
     for (unsigned i = 0; i < W; ++i) {
-        ++o->lanes_compared;
         o->expect[i] = exp[i]; o->actual[i] = got[i];
+        if (ftzdaz && F::exp(al[i]) == 0 && F::mant(al[i]) != 0) continue;      // subnormal input with FTZ/DAZ on: DAZ reads it as zero, not compared
+        ++o->lanes_compared;
         if (F::isnan(al[i])) { if (!F::isnan(got[i]) && !failtag) { failtag = "nan_input"; bad = (int)i; } continue; }
         if (F::isinf(al[i]) || F::isintegral(al[i])) {
             // "infinities and already-integral values unchanged": the same number must come back. +0 and -0 are the same number, so a
@@ -154,12 +162,13 @@ template<class V> static void run(const VpCase* c, VpOutcome* o) {
     }
     if (nt) o->nontrivial = 1; else o->classes |= 1u << CL_ORDINARY;
     if (failtag) {
-        char tag[96]; std::snprintf(tag, sizeof tag, "%s:mode%d", failtag, mode);
+        char tag[96]; std::snprintf(tag, sizeof tag, "%s:mode%d%s", failtag, mode, ftzdaz ? ":ftz_daz" : "");
         fail(o, bad, tag, "%s(0x%llx) under rounding mode %d: expected 0x%llx got 0x%llx (lane %d)", OPS[op].name, (unsigned long long)al[bad], mode, (unsigned long long)o->expect[bad], (unsigned long long)got[bad], bad);
     }
 }
 
 extern "C" void vp_run(const VpCase* c, VpOutcome* o) {
+    ref_set_mxcsr(0x1F80); ref_setround(0);     // a Case that ended in a signal skipped the restoring destructors
     switch (c->target) {
 #define X(n) case T_##n: run<avel::n>(c, o); return;
         VP_FLT_VECS(X)
@@ -189,8 +198,10 @@ extern "C" void vp_enum(int tier, uint64_t seed, uint32_t shard, uint32_t nshard
             if ((job++ % nshards) != shard) continue;
             if (op >= OP_SC0 && W != 1) continue;
             const unsigned f = op % F_COUNT;
-            for (int mode = 0; mode < 4; ++mode) {
-                VpCase c; std::memset(&c, 0, sizeof c); c.target = t; c.op = op; c.s[0] = mode;
+            for (int mf = 0; mf < 7; ++mf) {
+                // all four rounding modes with FTZ/DAZ off, then each FTZ/DAZ combination under one rounding mode
+                const int mode = mf < 4 ? mf : (int)((mf + f) % 4), fd = mf < 4 ? 0 : mf - 3;
+                VpCase c; std::memset(&c, 0, sizeof c); c.target = t; c.op = op; c.s[0] = mode + 4 * fd;
                 size_t fill = 0; uint64_t rot = seed + op + mode;
                 for (size_t i = 0; i < n; ++i) { c.v[0][(fill + rot) % W] = L[i]; if (++fill == W) { emit(&c, ctx); fill = 0; ++rot; } }
                 if (fill) emit(&c, ctx);
